@@ -80,6 +80,7 @@ def spec_to_code(rep, tier):
       for _ in range(k):
         text = S.concretise(toks, rng)
         rep.evaluations += 1
+        rep.behaviours_replayed += 1
         if outcome[0] == 'ok' or len(toks) >= 2:
           rep.nontrivial_case(' '.join(toks))
         d = S.check_case(toks, outcome, text)
